@@ -256,6 +256,7 @@ class ATP_Store:
                 self.atp += conversion
                 if not self.silent:
                     print(f"🔄 [Metabolism] Converted {conversion} NADH → ATP")
+                balance = self.atp
 
                 if self.atp >= cost:
                     self.atp -= cost
